@@ -352,3 +352,20 @@ pub fn k_builder_inforeq_odd_then_entry() {
     check_end_tag(bytes, off);
     assert!(iter_count(bytes) == 3);
 }
+
+// repeated call on the information-request slot: the LAST call wins (C12: any order / repeated calls)
+#[kani::proof]
+#[kani::unwind(18)]
+pub fn k_builder_inforeq_twice() {
+    let (arch, anum) = any_arch();
+    let first = InformationRequestHeaderTag::new(HeaderTagFlag::Optional, &[MbiTagTypeId::new(kani::any()), MbiTagTypeId::new(kani::any())]);
+    let r: u32 = kani::any();
+    let second = InformationRequestHeaderTag::new(HeaderTagFlag::Required, &[MbiTagTypeId::new(r), MbiTagTypeId::new(7)]);
+    let built = Builder::new(arch).information_request_tag(first).information_request_tag(second).build();
+    let br = built.as_bytes();
+    let bytes: &[u8] = &br;
+    check_fixed_part(bytes, anum, 16);
+    assert!(le16(bytes, 16) == 1 && le16(bytes, 18) == 0 && le32(bytes, 20) == 16);
+    assert!(le32(bytes, 24) == r && le32(bytes, 28) == 7);
+    check_end_tag(bytes, 32);
+}
